@@ -1014,6 +1014,11 @@ def _real_summary(parts, ev, vd):
                 continue
             ev.traces += 1
             ev.evaluations += 1
+            if not info.get('natoms'):          # the reader's result was rejected: the bonds were not looked at
+                runs.append(line)
+                _viol(vd, ev, 'real-structure-rejected', {'kind': 'real', 'case': case, 'step': r['step'], 'verdict': v, 'exception': r['exc']},
+                      '%s (%s %s, run %d of the history)' % (v, case['src'], case['ops'], r['step']))
+                continue
             line.update({k: info.get(k) for k in ('natoms', 'nres', 'nnamed', 'nfallback', 'nold', 'nname', 'nguess', 'ninmol', 'nmol', 'twins')})
             line['blocked_only_by'] = {k: n for k, n in dict(info['sole']).items() if n and k != 'within'}
             rd = info.get('read', {})
@@ -1045,12 +1050,13 @@ def _real_summary(parts, ev, vd):
                 _viol(vd, ev, 'real-structure-rejected', {'kind': 'real', 'case': case, 'step': r['step'], 'verdict': v,
                                                          'got_summary': r.get('got_summary'), 'exception': r['exc']},
                              '%s (%s %s, run %d of the history)' % (v, case['src'], case['ops'], r['step']))
+    vacuous = []
     missing = {k: (tot[k], need) for k, need in REAL_NEED.items() if tot[k] < need}
     if missing:
-        raise tlc.MachineryError('real-structure family is vacuous (have, need): %s' % missing)
+        vacuous.append('real-structure family is vacuous (have, need): %s' % missing)
     if tot.get('skipped_on_threshold', 0) > 0.1 * max(1, len(runs)):
-        raise tlc.MachineryError('%d real-structure runs were on a threshold' % tot['skipped_on_threshold'])
-    return tot, runs, unsupported
+        vacuous.append('%d real-structure runs were on a threshold' % tot['skipped_on_threshold'])
+    return tot, runs, unsupported, vacuous
 
 
 def run(tier, seed, ev, vd):
@@ -1167,27 +1173,33 @@ def run(tier, seed, ev, vd):
     for st in stats.values():
         st['companions'] = sorted(st['companions'])
         st['scope'] = '/'.join(sorted(st['scope']))
+    # vacuity: a family that did not exercise its clause makes the run a machinery failure - unless a violation was found
+    # (a defect can make a family vacuous, e.g. by raising; the violation is the result then)
+    vacuous = []
     if skipped > 0.02 * ntr:
-        raise tlc.MachineryError('%d of %d generated cases were on a threshold' % (skipped, ntr))
+        vacuous.append('%d of %d generated cases were on a threshold' % (skipped, ntr))
     for fam, st in sorted(stats.items()):
         if st['target'] and st['decisive'] < max(3, 0.5 * st['cases']):
-            raise tlc.MachineryError('vacuous family %s: clause %s decisive in %d of %d cases' % (
-                fam, st['target'], st['decisive'], st['cases']))
+            vacuous.append('vacuous family %s: clause %s decisive in %d of %d cases' % (fam, st['target'], st['decisive'], st['cases']))
     for fam, conj in (('radii', 'radii'), ('within-out', 'within'), ('nonedge', 'nonedge'), ('hh', 'hh'),
                       ('hacross', 'hacross'), ('bonded', 'bonded'), ('within-in', '(none)')):
         st = stats[fam]
         if st['focus_failing'].get(conj, 0) < 0.9 * st['cases']:
-            raise tlc.MachineryError('family %s: %s is the sole failing conjunct of the aimed pair in only %d of %d cases' % (
+            vacuous.append('family %s: %s is the sole failing conjunct of the aimed pair in only %d of %d cases' % (
                 fam, conj, st['focus_failing'].get(conj, 0), st['cases']))
     missing = [c for c in ('radii', 'within', 'nonedge', 'hh', 'hacross', 'bonded') if sole_pairs.get(c, 0) == 0]
     if missing:
-        raise tlc.MachineryError('no pair with sole failing conjunct %s' % missing)
+        vacuous.append('no pair with sole failing conjunct %s' % missing)
     never = sorted(v for v in variants if sens_count.get(v, 0) == 0)
     if never:
-        raise tlc.MachineryError('variants never distinguished by any trace: %s' % never)
+        vacuous.append('variants never distinguished by any trace: %s' % never)
     if history.get('second_runs', 0) < 5 or history.get('with_removed_atoms', 0) < 1 or history.get('input_bonds', 0) < 10:
-        raise tlc.MachineryError('history family is vacuous: %s' % history)
-    tot, runs, unsupported = _real_summary(real_parts, ev, vd)
+        vacuous.append('history family is vacuous: %s' % history)
+    tot, runs, unsupported, vac_real = _real_summary(real_parts, ev, vd)
+    vacuous += vac_real
+    if vacuous and not ev.violations:
+        raise tlc.MachineryError('; '.join(vacuous))
+    ev.extra['vacuity_problems'] = vacuous
     ev.extra['families'] = stats
     ev.extra['pairs_by_sole_failing_conjunct'] = sole_pairs
     ev.extra['cases_distinguishing_variant'] = {'trace': sens_count, 'tab': tab_sens}
